@@ -41,6 +41,8 @@ pub struct Op {
     pub ord_fail: Option<Ordering>,
     /// the load goes through `Guard::protect`
     pub protected: bool,
+    /// address of the guard a protected load was made under (0 = none)
+    pub guard: usize,
     pub loc: &'static Location<'static>,
 }
 
@@ -74,7 +76,8 @@ pub trait Hooks: Sync {
     fn alloc(&self, _ptr: usize, _size: usize) {}
     fn deref(&self, _ptr: usize, _loc: &'static Location<'static>) {}
     fn into_box(&self, _ptr: usize, _loc: &'static Location<'static>) {}
-    fn retire(&self, _ptr: usize, _loc: &'static Location<'static>) {}
+    /// `guard` is the address of the guard the object is retired through
+    fn retire(&self, _ptr: usize, _guard: usize, _loc: &'static Location<'static>) {}
     /// Called when the collector reclaims `ptr` (`size` bytes). Return `true` to take over the
     /// memory (the destructor has then already run and the block is *not* returned to the
     /// allocator; the harness owns it from now on).
@@ -124,6 +127,7 @@ pub fn op(kind: Kind, cell: Cell, addr: usize, ord: Ordering, ord_fail: Option<O
         ord,
         ord_fail,
         protected: false,
+        guard: 0,
         loc: Location::caller(),
     };
     hooks().before_op(&op);
@@ -141,6 +145,7 @@ pub fn word(kind: Kind, cell: Cell, addr: usize, ord: Ordering) {
         ord,
         ord_fail: None,
         protected: false,
+        guard: 0,
         loc: Location::caller(),
     };
     hooks().before_op(&op);
